@@ -75,7 +75,7 @@ func DStruct(kv ...any) Data {
 // HostileStrings is the adversarial string pool shared by the codec checks.
 var HostileStrings = []string{
 	"", "a", " ", "a b", " a", "a ", "\n", "a\nb", "a\n", "\t", "\r\n", "\"", "'", "\\", "<", "&", ">", "</script>",
-	"\u2028", "\u2029", "\u0000", "\u001f", "\u007f", "é", "\U0001F600", "\ufeff", "�", "#", "\\(x)", "${x}", "{{x}}",
+	"\u2028", "\u2029", "\u0000", "\u001f", "\u007f", "é", "\U0001F600", "\ufeff", "�", "#", "\\(x)", "${x}", "{{x}}", "\u0001", "a\u000bb", "\U000E0001", "\u0085", "\u00a0", "\u200b", "\ufffe",
 	"null", "true", "1", "1.5", "-", "- a", ": ", "a: b", "[", "]", "{", "}", ",", "*", "&a", "!t", "|", ">-", "%", "@", "`",
 	"~", "yes", "no", "on", "off", "y", "n", "0x1f", "0o7", "1e3", ".inf", ".nan", "2001-01-01", "1:20", "<<", "=", "---", "...", "? ",
 }
